@@ -1216,11 +1216,15 @@ func ruleA4(p *Program, r *Reporter) {
 		r.Anchor(id, "inMemoryDatabase.databases / references")
 		return
 	}
-	allowed := map[string]bool{
-		"(*database/inmemory.inMemoryDatabase).Commit":         true,
-		"(*database/inmemory.inMemoryDatabase).Commit$1":       true,
-		"(*database/inmemory.inMemoryDatabase).CreateDatabase": true,
-		"database/inmemory.NewDatabase":                        true,
+	// the commit path: Commit, CreateDatabase, the constructor, their closures and the
+	// unexported helpers called from nowhere else
+	allowed := map[string]bool{}
+	for g := range p.PrivateRegion(p.Fn("database/inmemory", "inMemoryDatabase", "Commit"), p.Fn("database/inmemory", "inMemoryDatabase", "CreateDatabase"), p.Fn("database/inmemory", "", "NewDatabase")) {
+		allowed[funcName(g)] = true
+	}
+	if len(allowed) < 3 {
+		r.Anchor(id, "inmemory Commit / CreateDatabase / NewDatabase")
+		return
 	}
 	// cache mutators: methods of package cache that (transitively) write RowCache.cache/indexes or TableCache.cache
 	mut := cacheMutators(p)
